@@ -400,6 +400,36 @@ Definition obs_client_error_trailers_only (st : status) (probes : list (list N))
 (* ... and of an error status in the trailers after messages *)
 Definition obs_client_error_trailers (st : status) (probes : list (list N)) : tr :=
   obs_status_received st [] probes.
+(* ---- MetadataMap::merge (headers.extend(other.headers)) and its three uses ---- *)
+(* client::Grpc::client_streaming (also unary): Response::from_http(head) gives the response
+   headers as metadata, then `parts.merge(trailers)` with the trailers the body ended with *)
+Definition client_unary_response_metadata (hdrs : hm) (trailers : option hm) : metadata :=
+  match trailers with
+  | Some t => merge (from_headers hdrs) (from_headers t)
+  | None => from_headers hdrs
+  end.
+(* the same function when the first thing the body yields is an error status read from the
+   trailers: `status.metadata_mut().merge(parts.clone())` - the response headers are folded
+   INTO the status metadata *)
+Definition client_unary_error_metadata (hdrs trailers : hm) : option metadata :=
+  match from_header_map trailers with
+  | Some st => Some (merge (st_md st) (from_headers hdrs))
+  | None => None
+  end.
+(* server::Grpc::map_request_unary: Request::from_http_parts, then
+   `req.metadata_mut().merge(trailers)` with the request trailers *)
+Definition server_unary_request_metadata (hdrs : hm) (trailers : option hm) : metadata :=
+  match trailers with
+  | Some t => merge (from_headers hdrs) (from_headers t)
+  | None => from_headers hdrs
+  end.
+Definition obs_client_unary_metadata (hdrs : hm) (trailers : option hm) (probes : list (list N)) : tr :=
+  obs_read (into_headers (client_unary_response_metadata hdrs trailers)) probes.
+Definition obs_client_unary_error_metadata (hdrs trailers : hm) (probes : list (list N)) : tr :=
+  oopt (fun m => obs_read (into_headers m) probes) (client_unary_error_metadata hdrs trailers).
+Definition obs_server_unary_request_metadata (hdrs : hm) (trailers : option hm) (probes : list (list N)) : tr :=
+  obs_read (into_headers (server_unary_request_metadata hdrs trailers)) probes.
+
 Definition obs_request_headers (sanitize_yes : bool) (md : metadata) : tr :=
   hm_canon (request_headers sanitize_yes md).
 
